@@ -2,6 +2,7 @@
 "full") and compiled functions are exported by the real exporters; the artefact is read back by
 harness/readers into a neutral gate list; spec/Trace_Gates.tla compares (structure + exact unitary)."""
 import json
+import math
 import random
 import signal
 
@@ -120,8 +121,19 @@ def run(pid):
             trig = [f"{c['target']}:{v[1]}"]
             if c["target"].startswith("qasm") and v[1] == "gate-differs" and any(g["k"] == "MCP" for g in c["gates"]):
                 # explained only if, apart from the phases of the cp gates, the export is gate-for-gate the circuit
+                # AND every printed cp angle is the exact one rounded to two decimals (any other wrong angle is not the finding)
                 strip = lambda gs: [(g["k"], g["w"], 0 if g["k"] == "MCP" else g["m"]) for g in gs if g["k"] != "BAR"]
-                if strip(c["gates"]) == strip(c["neutral"]):
+                src_cp = [g for g in c["gates"] if g["k"] == "MCP"]
+                out_cp = [g for g in c["neutral"] if g["k"] == "MCP"]
+
+                def rounded(gs, go):
+                    try:
+                        d = (float(go.get("raw", "nan")) - gs["m"] * math.pi / 8 + math.pi) % (2 * math.pi) - math.pi
+                        return abs(d) <= 0.005 + 1e-9
+                    except ValueError:
+                        return False
+
+                if strip(c["gates"]) == strip(c["neutral"]) and len(src_cp) == len(out_cp) and all(rounded(a, b) for a, b in zip(src_cp, out_cp)):
                     trig.append("qasm:gate-differs:cp-phase")
             if c["has_barrier"]:
                 trig.append(f"{c['target']}:{v[1]}:barrier")
